@@ -99,6 +99,9 @@ type Scenario struct {
 	TickMs    int              `json:"tickMs"`
 	Ops       []Op             `json:"ops"`
 	SettleMs  int              `json:"settleMs,omitempty"` // idle time (with ticks) before the final table read-out
+	// MidMs > 0: an additional read-out this long into the idle time (C13: state that must have
+	// expired by the *configured* block-wise timeout)
+	MidMs int `json:"midMs,omitempty"`
 	// NotifHoldMs: the observe callback keeps its notification for this long before it returns (C12)
 	NotifHoldMs int `json:"notifHoldMs,omitempty"`
 }
@@ -154,30 +157,32 @@ type Sizes struct {
 }
 
 type Trace struct {
-	Ops           []OpResult
-	Handler       []HandlerRec
-	CliErrs       []string
-	SrvErrs       []string
-	CliSizes      Sizes
-	SrvSizes      Sizes
-	SizesRead     bool
-	EarlyCli      Sizes // C13: tables once the wire has gone quiet after the last call returned (no expiry needed yet)
-	EarlySrv      Sizes
-	EarlyRead     bool
-	Leaked        bool
-	Deadlock      bool
-	Panic         string
-	Datagrams     int
-	Storms        int
-	StreamStorm   bool // a stream direction exceeded its write budget (live-lock)
-	Aliens        int
-	TailDrops     int
-	PoolViolation []string
-	PoolRecycles  int64
-	PoolReleases  int64
-	End           time.Duration
-	Wire          []string // decoded wire log (only with Debug)
-	LiveObs       int      // observations that are still registered at the end (not cancelled, registration succeeded)
+	Ops            []OpResult
+	Handler        []HandlerRec
+	CliErrs        []string
+	SrvErrs        []string
+	CliSizes       Sizes
+	SrvSizes       Sizes
+	SizesRead      bool
+	EarlyCli       Sizes // C13: tables once the wire has gone quiet after the last call returned (no expiry needed yet)
+	EarlySrv       Sizes
+	EarlyRead      bool
+	MidCli, MidSrv Sizes
+	MidRead        bool
+	Leaked         bool
+	Deadlock       bool
+	Panic          string
+	Datagrams      int
+	Storms         int
+	StreamStorm    bool // a stream direction exceeded its write budget (live-lock)
+	Aliens         int
+	TailDrops      int
+	PoolViolation  []string
+	PoolRecycles   int64
+	PoolReleases   int64
+	End            time.Duration
+	Wire           []string // decoded wire log (only with Debug)
+	LiveObs        int      // observations that are still registered at the end (not cancelled, registration succeeded)
 }
 
 // Debug makes Run record a decoded wire log.
@@ -779,7 +784,23 @@ func Run(t *testing.T, sc Scenario, track bool) (tr Trace) {
 			}
 		}
 		// ---- idle phase, then the table read-out (C13) ------------------------------------------------
-		time.Sleep(time.Duration(def(sc.SettleMs, 300000)) * time.Millisecond)
+		settle := time.Duration(def(sc.SettleMs, 300000)) * time.Millisecond
+		if mid := time.Duration(sc.MidMs) * time.Millisecond; mid > 0 && mid < settle {
+			time.Sleep(mid)
+			bubble.Wait()
+			select {
+			case <-cli.Done():
+			default:
+				select {
+				case <-srv.Done():
+				default:
+					tr.MidCli, tr.MidSrv = sizes()
+					tr.MidRead = true
+				}
+			}
+			settle -= mid
+		}
+		time.Sleep(settle)
 		bubble.Wait()
 		select {
 		case <-cli.Done():
